@@ -120,7 +120,7 @@ PROPS = {
                 "the bit-flip, byte-substitution, field and truncation sweeps of the listed base files only.",
         "manifest": {
             "text": "Fault enumeration: the complete single-bit, single-byte-substitution, per-field and truncation fault "
-                    "spaces of 6 (quick) / 30 (thorough) small valid files are swept against the real readers; region edits "
+                    "spaces of 6 (quick) / up to 240 (thorough, cut by the wall budget) small valid files are swept against the real readers; region edits "
                     "and non-format strings are sampled.",
             "note": "Base files come from the crate's own writers (checked by C02/C03); outcomes of panicking or hanging "
                     "readers are not wrong-data outcomes and are counted as not judged here (C06/C09 judge them).",
@@ -197,7 +197,11 @@ PROPS = {
                 "(filter writers: produce the same filtered bytes as one write); for every reader incl. both MT readers and "
                 "the filter readers: 24-60 buffer-size sequences (1 byte, primes, 4095..4097, > stream, random, zero-length "
                 "reads interleaved and placed before call k, short-reading sources) must yield the bytes of the 64 KiB-buffer "
-                "reference read. Cell = component|side|shape; non-trivial = at least one alternative history was compared.",
+                "reference read (incl. reads ending exactly at / around the 5000-byte units, the dictionary size and the "
+                "4096-byte filter buffer). Window-slide block: for the seven writers whose window slides, a probing encode "
+                "(512-byte writes, `window_move` hook counter) finds where the encoder's window moves; 25 call histories put "
+                "write boundaries, 1-200-byte writes and flushes into the 15 KB around the first and second move and must "
+                "decode to the input. Cell = component|side|shape; non-trivial = at least one alternative history was compared.",
         "manifest": {
             "text": "Exploration over call histories: the same content is pushed through many write partitions and pulled "
                     "through many read-buffer sequences and compared with the single-call reference.",
@@ -340,7 +344,9 @@ PROPS = {
                 "the allocator poisoning every fresh non-zeroed block with 0xA5. Variations that must give byte-identical "
                 "output: (a) a second run after heap churn with poison 0x3C; (b) 6 random write partitions (LZMA, LZIP, MT "
                 "writers always; LZMA2/XZ only without chunk/block size, as the property says); (c) MT writers with 2, 3, 5 "
-                "and 16 workers under seeded failpoint schedules. Cell = writer|variation axis; non-trivial = a real "
+                "and 16 workers under seeded failpoint schedules; (d) one call sequence with flushes under 1-4 workers; (e) "
+                "window-slide partitions (see C07; flush-free histories around the window move found by a probing encode) "
+                "for the single-threaded writers. Cell = writer|variation axis; non-trivial = a real "
                 "variation was applied (more than one write / more than one unit / non-empty data).",
         "manifest": {
             "text": "Exploration with a metamorphic oracle (same input and options => same bytes) across repetition with a "
